@@ -335,6 +335,17 @@ def _eval_own(model, zkind, rec, own, existing, missing):
                 exact = ('drop',)
             else:
                 exact = ('raise',)
+        # the other side's same-named keyword-only parameter stored as it is (no conciliation with `existing`)
+        if zkind == 'POK' and not puts:
+            alien = [c for c in rec.puts if c[2] is not None and not c[2].unknown and c[2].base is not None and c[2].base[0] == 'M'
+                     and c[2].base[2] == 'pop' and c[2].side == oth]
+            if alien and val.get(m_k) is not False:
+                out.append(('sound', '%s: the %s input\'s keyword-only parameter is stored as it is, without conciliation with this parameter '
+                                     '(its default survives although this input may require the parameter)' % (where, oth)))
+                out.append(('conc', '%s: the %s input\'s keyword-only parameter is stored without conciliation '
+                                    '(default/annotation rules are bypassed)' % (where, oth)))
+                out.append(('exact', '%s: stored without conciliation' % where))
+                continue
         if rec.raises:
             if puts:
                 out.append(('unknown', 'path both stores and raises'))
